@@ -27,7 +27,7 @@ NCPU = min(16, os.cpu_count() or 1)
 sys.path.insert(0, VERIF)
 
 from engines import *  # noqa: F401,F403,E402
-from engines import ENGINES, build, run_cmd, engine_env, target_dir
+from engines import ENGINES, build, run_cmd, engine_env, target_dir, binary
 
 # ------------------------------------------------------------------ plans ----
 from plans import PLANS, RULES, ASSUMPTIONS, LEVEL_NOTES  # noqa: E402
@@ -194,6 +194,56 @@ def run_shard(job):
         frm = pos + 1
 
 
+def run_fuzz(prop, r, seed, logdir):
+    """E6: coverage-guided exploration with libFuzzer + ASan (thorough tier). Returns
+    (violations, coverage dict, inconclusive notes)."""
+    fuzzdir = os.path.join(HARNESS, "fuzz")
+    tdir = os.path.join(VERIF, "target-fuzz")
+    env = dict(ENV_BASE)
+    env["MB2_FUZZ_MODES"] = r["modes"]
+    b = subprocess.run(["cargo", "+nightly", "fuzz", "build", "parse", "--fuzz-dir", fuzzdir, "--target-dir", tdir],
+                       env=env, cwd=HARNESS, stdout=subprocess.PIPE, stderr=subprocess.STDOUT, text=True)
+    if b.returncode != 0:
+        return [], {}, [f"libFuzzer target did not build (E6 dropped for this run): {b.stdout[-300:]}"]
+    corpus = os.path.join(tdir, "corpus-" + prop)
+    arts = os.path.join(tdir, "artifacts-" + prop + "/")
+    shutil.rmtree(arts, ignore_errors=True)
+    os.makedirs(arts, exist_ok=True)
+    if not os.path.isdir(corpus) or not os.listdir(corpus):
+        ok, out = build("dev")
+        if ok:
+            e2 = dict(env)
+            e2["MB2_CORPUS_DIR"] = corpus
+            subprocess.run([binary("dev"), "CORPUS"], env=e2, cwd=HARNESS)
+    secs = r.get("secs", 120)
+    cmd = ["cargo", "+nightly", "fuzz", "run", "parse", "--fuzz-dir", fuzzdir, "--target-dir", tdir, corpus, "--",
+           f"-max_total_time={secs}", "-timeout=10", "-max_len=4096", f"-fork={r.get('jobs', NCPU)}", f"-artifact_prefix={arts}", f"-seed={seed}"]
+    try:
+        p = subprocess.run(cmd, env=env, cwd=HARNESS, stdout=subprocess.PIPE, stderr=subprocess.STDOUT, text=True, timeout=secs + 600)
+        out = p.stdout
+    except subprocess.TimeoutExpired as e:
+        return [], {}, [f"libFuzzer run: watchdog fired"]
+    with open(os.path.join(logdir, "fuzz.log"), "w") as f:
+        f.write(out[-400000:])
+    stats = re.findall(r"^#(\d+): cov: (\d+) ft: (\d+) corp: (\d+)", out, re.M)
+    execs, cov, ft, corp = (int(x) for x in stats[-1]) if stats else (0, 0, 0, 0)
+    viol = []
+    for a in sorted(os.listdir(arts)):
+        path = os.path.join(arts, a)
+        kind = a.split("-")[0]
+        m = re.search(r"MONITOR (\[[^\n]*\])", out)
+        ma = ASAN_ERR.search(out)
+        what = m.group(1) if m else ("asan:" + ma.group(2).split(" on ")[0].strip() if ma else kind)
+        keep = os.path.join(VERIF, "replays", f"{prop}-fuzz-{a}")
+        os.makedirs(os.path.dirname(keep), exist_ok=True)
+        shutil.copy(path, keep)
+        viol.append(dict(property=prop, sig=f"fuzz:{what}", engine="fuzz", case=0, args=["FUZZONE"], artifact=keep,
+                         detail=dict(what="libFuzzer artifact; replay with MB2_INPUT=<artifact> mb2mon FUZZONE (ASan build for memory errors)", tail=out[-1500:])))
+    covd = dict(fuzz=dict(executions=execs, edge_coverage=cov, features=ft, corpus_entries=corp, seconds=secs, modes=r["modes"], artifacts=len(viol)))
+    inc = [] if stats else ["libFuzzer run produced no statistics"]
+    return viol, covd, inc
+
+
 def shard_ids(procs, density, seed):
     n = procs * density
     off = seed % density
@@ -220,6 +270,8 @@ def check(prop, tier, seed):
     os.makedirs(os.path.join(VERIF, "evidence"), exist_ok=True)
     inconclusive = []
     # 1. build
+    fuzz_runs = [r for r in plan if r["engine"] == "fuzz"]
+    plan = [r for r in plan if r["engine"] != "fuzz"]
     engines = []
     for r in plan:
         if r["engine"] not in engines:
@@ -281,8 +333,16 @@ def check(prop, tier, seed):
         benign_total += r.benign
         violations += r.violations + r.crashes
         inconclusive += r.inconclusive
-    # C08-style cross-configuration comparison
     extra_cov = {}
+    for r in fuzz_runs:
+        v2, cov2, inc2 = run_fuzz(prop, r, seed, logdir)
+        violations += v2
+        extra_cov.update(cov2)
+        inconclusive += inc2
+        if cov2:
+            evaluations += cov2["fuzz"]["executions"]
+            per_engine["fuzz:" + prop] = dict(evaluations=cov2["fuzz"]["executions"], cases_run=cov2["fuzz"]["executions"], shards=1, counters={}, cut_by_budget=0, cases_total=0, nshards=1)
+    # C08-style cross-configuration comparison
     post = PLANS[prop].get("post")
     if post:
         v2, cov2, inc2 = post(results, tier, seed, logdir)
@@ -366,6 +426,13 @@ def check(prop, tier, seed):
 def replay(path):
     v = json.load(open(path))
     engine = v["engine"]
+    if engine == "fuzz":
+        ok, out = build("asan")
+        env = engine_env("asan")
+        env["MB2_INPUT"] = v["artifact"]
+        cmd = [binary("asan"), "FUZZONE"]
+        print("$ MB2_INPUT=" + v["artifact"], " ".join(cmd))
+        return 1 if subprocess.run(cmd, env=env, cwd=HARNESS).returncode != 0 else 0
     ok, out = build(engine)
     if not ok:
         print(out)
@@ -384,7 +451,7 @@ def replay(path):
 
 def setup():
     rc = 0
-    engines = sorted({r["engine"] for p in PLANS.values() for t in ("quick", "thorough") for r in p[t]})
+    engines = sorted({r["engine"] for p in PLANS.values() for t in ("quick", "thorough") for r in p[t] if r["engine"] != "fuzz"})
     # builds are independent target dirs: run them in parallel
     with cf.ThreadPoolExecutor(max_workers=4) as ex:
         futs = {e: ex.submit(build, e) for e in engines}
